@@ -57,7 +57,8 @@ Lemma derive_job_kind_spec d h :
 Proof. destruct d, h; reflexivity. Qed.
 
 Lemma validate_spec ie :
-  validate_gen true ie = if ie then (false, true, SS_PENDING, false) else (true, false, 0, false).
+  validate_gen true ie =
+  if ie then (false, true, SS_PENDING, validate_unchanged_deferred) else (true, false, 0, false).
 Proof. destruct ie; reflexivity. Qed.
 
 Lemma try_skip_phase1_spec ie :
@@ -227,7 +228,7 @@ Lemma do_xtry_with_hash x t cancel sh :
     | NR_ok inp =>
         if inp_equal sh (x_envc x) inp then
           if dyn_ready w then (set_xchk (set_xb x w1) (Some (mkChk sh (x_envc x) inp)), XRTry 2 false)
-          else (set_xb x (set_crow w1 SS_PENDING false (c_dc w)), XRTry 3 false)
+          else (set_xb x (set_crow w1 SS_PENDING validate_unchanged_deferred (c_dc w)), XRTry 3 false)
         else (apply_reset x w1, XRTry kn false)
     end.
 Proof.
@@ -406,7 +407,8 @@ Theorem checking_outcomes x t x' k s sh :
      x_hash x' = Some sh /\
      (k = 2 -> c_state (xb x') = SS_CHECKING /\
                x_chk x' = Some (mkChk sh (x_envc x) (canon (snapshot (xb x))))) /\
-     (k = 3 -> x' = x)).
+     (k = 3 -> c_state (xb x') = SS_PENDING /\ c_deferred (xb x') = validate_unchanged_deferred /\
+               x_chk x' = x_chk x /\ (validate_unchanged_deferred = false -> x' = x))).
 Proof.
   intros Htry Hk Hh.
   assert (Hk0 : k <> 0) by (destruct Hk; subst; discriminate).
@@ -426,6 +428,7 @@ Proof.
       * cbn. split; [reflexivity|]. split; [exact Hrun|]. split; [discriminate|].
         split; [intros H; rewrite H in Hsc; discriminate|]. split; [intros _ H; discriminate H|].
         intros _ _. split; [exact Hh|]. split; [intros H; discriminate H|]. intros _.
+        split; [reflexivity|]. split; [reflexivity|]. split; [reflexivity|]. intros Hv. rewrite Hv.
         destruct x as [w h o e kk]. destruct w. cbn in *. subst. reflexivity.
     + inversion Htry; subst x' s; clear Htry. rewrite apply_reset_spec. cbn.
       split; [reflexivity|]. split; [exact Hrun|]. split; [discriminate|].
@@ -450,7 +453,7 @@ Theorem validate_never_succeeds_never_runs x t cancel x' s :
   do_xtry x t cancel = (x', XRTry 3 s) ->
   s = false /\ c_run (xb x') = None /\ x_chk x' = None /\
   (c_state (xb x') = SS_PENDING \/ c_state (xb x') = SS_FAILED) /\
-  (has_hash x' = true -> x' = x).
+  (has_hash x' = true -> validate_unchanged_deferred = false -> x' = x).
 Proof.
   intros Htry.
   assert (Hk0 : (3 : N) <> 0) by discriminate.
@@ -471,8 +474,8 @@ Proof.
     + destruct (Hch eq_refl) as [Hf [_ [Hnh Hk']]]. split; [exact Hk'|]. split; [right; exact Hf|].
       unfold has_hash. rewrite Hnh. discriminate.
     + destruct (inp_equal sh (x_envc x) (canon (snapshot (xb x)))) eqn:Hie.
-      * destruct (Hsame eq_refl eq_refl) as [_ [_ Hx]]. rewrite (Hx eq_refl).
-        split; [exact Hchk|]. split; [left; exact Hst|]. intros _. reflexivity.
+      * destruct (Hsame eq_refl eq_refl) as [_ [_ Hx]]. destruct (Hx eq_refl) as [Hp [_ [Hk' Hxx]]].
+        split; [rewrite Hk'; exact Hchk|]. split; [left; exact Hp|]. intros _ Hv. exact (Hxx Hv).
       * destruct (Hre eq_refl eq_refl) as [Hp [_ [_ [Hnh Hk']]]]. split; [exact Hk'|]. split; [left; exact Hp|].
         unfold has_hash. rewrite Hnh. discriminate.
 Qed.
@@ -482,12 +485,13 @@ Qed.
    i.e. exactly as it was dispatched; unless another actor changes something, every further dispatch
    derives the same job again with the same result. *)
 Theorem validate_unchanged_redispatches x t x' s :
+  validate_unchanged_deferred = false ->
   do_xtry x t false = (x', XRTry 3 s) -> has_hash x' = true ->
   forall n t', xrun (repeat (XTry t' false) n) x = x /\ do_xtry x t' false = (x, XRTry 3 false).
 Proof.
-  intros Htry Hh.
+  intros Hv Htry Hh.
   destruct (validate_never_succeeds_never_runs x t false x' s Htry) as [Hs [_ [_ [_ Hx]]]].
-  specialize (Hx Hh). subst x' s.
+  specialize (Hx Hh Hv). subst x' s.
   assert (Hany : forall t', do_xtry x t' false = (x, XRTry 3 false)).
   { intros t'.
     assert (Hk0 : (3 : N) <> 0) by discriminate.
